@@ -39,6 +39,7 @@ type failWriter struct {
 	short  bool
 	once   bool // transient fault: only the Write that crosses the limit fails, later ones succeed
 	silent bool // the failing Write (and every later one) accepts fewer bytes than given and reports no error
+	fullct bool // the failing Write (and every later one) reports the error together with the full count (a metering wrapper: _, err := inner.Write(p); return len(p), err)
 	got    bytes.Buffer
 	failed bool
 	calls  int
@@ -49,6 +50,9 @@ func (f *failWriter) Write(p []byte) (int, error) {
 	if f.failed && f.silent {
 		return 0, nil
 	}
+	if f.failed && f.fullct {
+		return len(p), errInjected
+	}
 	if f.failed && !f.once {
 		return 0, errInjected
 	}
@@ -58,6 +62,10 @@ func (f *failWriter) Write(p []byte) (int, error) {
 		return len(p), nil
 	}
 	f.failed = true
+	if f.fullct {
+		f.got.Write(p[:max(room, 0)])
+		return len(p), errInjected
+	}
 	if f.silent {
 		f.got.Write(p[:max(room, 0)])
 		return max(room, 0), nil
@@ -350,8 +358,8 @@ func (c *c12Case) runRenderer(ctx *core.Ctx) {
 	}
 	n := ref.Len()
 	for k := 0; k < n; k++ {
-		for style := 0; style < 4; style++ {
-			fw := &failWriter{limit: k, short: style == 1, once: style == 2, silent: style == 3}
+		for style := 0; style < 5; style++ {
+			fw := &failWriter{limit: k, short: style == 1, once: style == 2, silent: style == 3, fullct: style == 4}
 			ctx.Eval(1)
 			err := vuego.NewRenderer().Render(bg, fw, nodes)
 			if !fw.failed {
@@ -363,7 +371,7 @@ func (c *c12Case) runRenderer(ctx *core.Ctx) {
 				return
 			}
 			if err == nil {
-				ctx.Violation("writer-failure-swallowed", "renderer", []string{"refuse", "short-write", "transient", "short-write-without-error"}[style], fmt.Sprintf("Renderer.Render on the nodes of %s: writer failed at offset %d of %d but Render returned nil", c.Prog, k, n))
+				ctx.Violation("writer-failure-swallowed", "renderer", []string{"refuse", "short-write", "transient", "short-write-without-error", "error-with-full-count"}[style], fmt.Sprintf("Renderer.Render on the nodes of %s: writer failed at offset %d of %d but Render returned nil", c.Prog, k, n))
 				return
 			}
 		}
@@ -440,9 +448,9 @@ func (c *c12Case) Run(ctx *core.Ctx) {
 			continue
 		}
 		offsets++
-		for style := 0; style < 4; style++ {
+		for style := 0; style < 5; style++ {
 			short := style == 1
-			fw := &failWriter{limit: k, short: short, once: style == 2, silent: style == 3}
+			fw := &failWriter{limit: k, short: short, once: style == 2, silent: style == 3, fullct: style == 4}
 			ctx.Eval(2)
 			var dest io.Writer = fw
 			if k%2 == 1 {
@@ -474,6 +482,9 @@ func (c *c12Case) Run(ctx *core.Ctx) {
 				if fw.silent {
 					style = "short-write-without-error"
 				}
+				if fw.fullct {
+					style = "error-with-full-count"
+				}
 				ctx.Violation("writer-failure-swallowed", where, style, fmt.Sprintf("program %s: writer failed at offset %d of %d (%s) but the render returned nil", c.Prog, k, n, style))
 				return
 			}
@@ -496,7 +507,7 @@ func init() {
 	core.Register(&core.Check{
 		ID:    "C12",
 		Level: "fault_enumeration",
-		Rule: "every catalogue program (25 succeeding, 6 failing early/late/in include/in layout) x entry point {Load+Render, RenderFile, RenderString, RenderByte, RenderReader} x fault {none, cancelled context, writer failing at EVERY byte offset 0..len(output)-1 in four styles: refusing the write and every later one, short write + error, refusing that one write only (a transient fault), accepting fewer bytes than given without reporting an error; every other offset through a writer that also implements io.StringWriter}; plus, for the succeeding programs, a registered node processor that changes nothing and fails at EVERY node position of the DOM it is shown (post-processing and pre-processing), which must give an error and 0 bytes; plus a context that is cancelled while the render runs - when the writer receives its k-th byte, for every k, and when the j-th file is opened, for every j - after which the call must still be all or nothing; plus the exported serialiser (NewRenderer().Render) on the nodes of every succeeding program with the writer failing at every offset in the same four styles. " +
+		Rule: "every catalogue program (25 succeeding, 6 failing early/late/in include/in layout) x entry point {Load+Render, RenderFile, RenderString, RenderByte, RenderReader} x fault {none, cancelled context, writer failing at EVERY byte offset 0..len(output)-1 in five styles: refusing the write and every later one, short write + error, refusing that one write only (a transient fault), accepting fewer bytes than given without reporting an error, reporting the error together with the full byte count (a metering wrapper); every other offset through a writer that also implements io.StringWriter}; plus, for the succeeding programs, a registered node processor that changes nothing and fails at EVERY node position of the DOM it is shown (post-processing and pre-processing), which must give an error and 0 bytes; plus a context that is cancelled while the render runs - when the writer receives its k-th byte, for every k, and when the j-th file is opened, for every j - after which the call must still be all or nothing; plus the exported serialiser (NewRenderer().Render) on the nodes of every succeeding program with the writer failing at every offset in the same five styles. " +
 			"oracle: healthy writer: error => 0 bytes received, nil => exactly the reference bytes; failing writer: non-nil error, the bytes it accepted are a prefix of the reference, and the next healthy render on the same long-lived engine returns exactly the reference bytes; cancelled context: error and 0 bytes. non-trivial = all; distinct = (program, entry point)",
 		Bounds:      map[string]string{"quick": "all offsets of all programs; for the two programs with more than 4096 bytes of output the first and last 512 offsets and every 97th in between", "thorough": "all offsets of all programs"},
 		Assumptions: []string{"a writer that accepts fewer bytes than given without an error breaks io.Writer's contract; the render must still report it (io.ErrShortWrite)"},
